@@ -50,6 +50,7 @@ theorem loc_step (w : W) (op : Op) : (step w op).1.loc = w.loc := by
     split
     · split <;> rfl
     · rfl
+  | reann p ctr ref ack => simp only [step, processReann]; split <;> rfl
 
 theorem loc_run (ops : List Op) : ∀ w : W, (run w ops).loc = w.loc := by
   induction ops with
